@@ -249,7 +249,7 @@ func c18GenOp(rng *rand.Rand, marker string) c18In {
 func TestVerif_C18_AdminAPI(t *testing.T) {
 	r := kit.Start(t, "C18")
 	defer r.Finish()
-	r.Rule("histories on two api.Servers (primary + secondary member of one embedded etcd) driven through their real chi routers: 0-2 sequential prefill creates, then 4-8 concurrent clients x 3-5 ops (create 30%, update 28%, delete 20%, get 14%, list 8%; 3 object names; Pipeline objects whose Mock filter body is a unique marker, 1 in 5 writes uses kind TrafficController to reach the 400 path), random server per op, then a final GET /objects; " +
+	r.Rule("histories on two api.Servers (primary + secondary member of one embedded etcd) driven through their real chi routers: 0-2 sequential prefill creates, then 4-8 concurrent clients x 3-5 ops (create 30%, update 28%, delete 20%, get 14%, list 8%; 3 object names; Pipeline objects whose Mock filter body is a unique marker, 1 in 5 writes uses kind TrafficController to reach the 400 path), random server per op, then a final GET /objects; the secondary member (after the first endpoint sync also the primary) talks to etcd through a TCP relay that delays each forwarded chunk by a random time up to a per-connection, per-history maximum (0 / 0.5 / 1.5 / 4 ms) so that the members' etcd requests interleave as they do over a real network; " +
 		"distinct = per-history vector of outcome counts (201, 200 update, 200 delete, 409, 404, 400) and number of overlapping successful mutations")
 	r.Assume("spec bodies are valid and the URL name equals the spec name (the 400 of the property is the kind-mismatch 400)")
 	r.Assume("a 503 answer (cluster request timed out under load) makes a history undecidable: it is reported inconclusive, not judged")
@@ -293,7 +293,8 @@ func TestVerif_C18_AdminAPI(t *testing.T) {
 				total++
 			}
 		}
-		r.Case(i, map[string]interface{}{"clients": nClients, "prefill": len(prefill), "ops": total})
+		delays := rig.relay.SetDelays(rng)
+		r.Case(i, map[string]interface{}{"clients": nClients, "prefill": len(prefill), "ops": total, "relay_max_delay_us_per_connection": delays})
 
 		// ---- reset to the empty configuration (quiescent: nothing else is running)
 		if err := cls.DeletePrefix(cls.Layout().ConfigObjectPrefix()); err != nil {
